@@ -86,6 +86,19 @@ static child_res run_child(int a, int b, case_fn fn, void *ctx, int timeout_ms) 
     return r;
 }
 
+/* A case that ran into its alarm is executed once more, alone, with ten times the limit (at most two minutes) before it is
+ * called a hang: the alarm measures wall time, and on a loaded machine a slow but finite case (an open that zero-fills a
+ * declared 200 MB header 128 times takes 6 s unloaded) must not turn into a verdict that does not replay. */
+static child_res confirm_hang(int idx, child_res first, case_fn fn, void *ctx, int timeout_ms, bool enabled) {
+    if(!enabled || getenv("VF_NO_HANG_CONFIRM")) return first;
+    long t = (long)timeout_ms * 10;
+    if(t > 120000) t = 120000;
+    if(t <= timeout_ms) return first;
+    blob_free(&first.out);
+    blob_free(&first.err);
+    return run_child(idx, idx + 1, fn, ctx, (int)t);
+}
+
 static void emit_single(int idx, child_res *r, FILE *out) {
     /* drop a trailing X line the child may have printed, then print the real status */
     size_t n = r->out.n;
@@ -140,12 +153,14 @@ void run_cases(int n, case_fn fn, void *ctx, run_opts o, FILE *out) {
         if(clean) {
             fwrite(r.out.p, 1, r.out.n, out);
         } else if(b - a == 1) {
+            if(r.timeout) r = confirm_hang(a, r, fn, ctx, o.timeout_ms, o.confirm_hang);
             if(r.timeout) hangs++;
             emit_single(a, &r, out);
         } else {
             for(int i = a; i < b; i++) {
                 if(hangs >= max_hangs) { fprintf(out, "X %d exit=0 sig=0 timeout=2 san=-\n", i); continue; }
                 child_res s = run_child(i, i + 1, fn, ctx, o.timeout_ms);
+                if(s.timeout) s = confirm_hang(i, s, fn, ctx, o.timeout_ms, o.confirm_hang);
                 if(s.timeout) hangs++;
                 emit_single(i, &s, out);
                 blob_free(&s.out);
